@@ -4,6 +4,7 @@ under which guard), whether ParenthesizedNode is printed, and the evaluation of 
 from __future__ import annotations
 
 import ast
+import copy
 import typing as T
 
 from ..core import Module, Undecided, attr_chain, norm, short, walk_no_nested
@@ -82,6 +83,134 @@ def _single_defs(fn: ast.AST) -> T.Dict[str, ast.AST]:
     return out
 
 
+# ---------------------------------------------------------------------------
+# normal form: `with self.<cm>(args): body` where <cm> is a @contextmanager generator of the same class with one
+# yield (bare, or as the only statement of a try/finally) reads as  prologue; body; epilogue  with the parameters bound.
+def _cm_shape(fn: ast.AST) -> T.Optional[T.Tuple[T.List[ast.stmt], T.Optional[ast.expr], T.List[ast.stmt]]]:
+    if not isinstance(fn, ast.FunctionDef):
+        return None
+    if not any(norm(d).split('.')[-1] == 'contextmanager' for d in fn.decorator_list):
+        return None
+    ys = [n for n in walk_no_nested(fn) if isinstance(n, (ast.Yield, ast.YieldFrom))]
+    if len(ys) != 1 or not isinstance(ys[0], ast.Yield):
+        return None
+    if any(isinstance(n, ast.Return) for n in walk_no_nested(fn)):
+        return None
+    for i, st in enumerate(fn.body):
+        if isinstance(st, ast.Expr) and st.value is ys[0]:
+            return list(fn.body[:i]), ys[0].value, list(fn.body[i + 1:])
+        if isinstance(st, ast.Try) and not st.handlers and not st.orelse and len(st.body) == 1 and isinstance(st.body[0], ast.Expr) \
+                and st.body[0].value is ys[0]:
+            return list(fn.body[:i]), ys[0].value, list(st.finalbody) + list(fn.body[i + 1:])
+    return None
+
+
+class _Subst(ast.NodeTransformer):
+    def __init__(self, mapping: T.Dict[str, ast.expr], rename: T.Dict[str, str]):
+        self.mapping = mapping
+        self.rename = rename
+
+    def visit_Name(self, n: ast.Name) -> ast.AST:
+        if n.id in self.rename:
+            return ast.copy_location(ast.Name(id=self.rename[n.id], ctx=n.ctx), n)
+        if n.id in self.mapping and isinstance(n.ctx, ast.Load):
+            return ast.copy_location(copy.deepcopy(self.mapping[n.id]), n)
+        return n
+
+
+def _inline_with(st: ast.With, methods: T.Dict[str, T.Any], depth: int) -> T.Optional[T.List[ast.stmt]]:
+    if len(st.items) != 1:
+        return None
+    item = st.items[0]
+    call = item.context_expr
+    h = _self_call(call)
+    if h is None or h not in methods or not isinstance(call, ast.Call):
+        return None
+    shape = _cm_shape(methods[h])
+    if shape is None:
+        return None
+    pro, yval, epi = shape
+    cm = T.cast(ast.FunctionDef, methods[h])
+    if cm.args.vararg or cm.args.kwarg or cm.args.kwonlyargs or cm.args.posonlyargs:
+        return None
+    params = [a.arg for a in cm.args.args][1:]
+    defaults: T.Dict[str, ast.expr] = dict(zip(reversed(params), reversed(cm.args.defaults)))
+    if len(call.args) > len(params) or any(isinstance(a, ast.Starred) for a in call.args) or any(k.arg is None or k.arg not in params for k in call.keywords):
+        return None
+    bound: T.Dict[str, ast.expr] = dict(zip(params, call.args))
+    for k in call.keywords:
+        bound[T.cast(str, k.arg)] = k.value
+    for p in params:
+        if p not in bound:
+            if p not in defaults:
+                return None
+            bound[p] = defaults[p]
+    stored = {n.id for s in pro + epi for n in ast.walk(s) if isinstance(n, ast.Name) and isinstance(n.ctx, (ast.Store, ast.Del))}
+    rename = {n: f'_cm_{h}_{n}' for n in stored}
+    mapping: T.Dict[str, ast.expr] = {}
+    head: T.List[ast.stmt] = []
+    for p, a in bound.items():
+        if p in stored or any(isinstance(x, (ast.Call, ast.Await, ast.NamedExpr)) for x in ast.walk(a)):
+            rename[p] = f'_cm_{h}_{p}'
+            head.append(ast.copy_location(ast.Assign(targets=[ast.Name(id=rename[p], ctx=ast.Store())], value=copy.deepcopy(a), lineno=st.lineno), st))
+        else:
+            mapping[p] = a
+    sub = _Subst(mapping, rename)
+    out: T.List[ast.stmt] = head + [sub.visit(copy.deepcopy(s)) for s in pro]
+    if item.optional_vars is not None:
+        if yval is None:
+            return None
+        out.append(ast.copy_location(ast.Assign(targets=[item.optional_vars], value=sub.visit(copy.deepcopy(yval)), lineno=st.lineno), st))
+    out += st.body
+    out += [sub.visit(copy.deepcopy(s)) for s in epi]
+    for s in out:
+        ast.fix_missing_locations(s)
+    return _inline_block(out, methods, depth + 1)
+
+
+def _inline_block(body: T.List[ast.stmt], methods: T.Dict[str, T.Any], depth: int = 0) -> T.List[ast.stmt]:
+    out: T.List[ast.stmt] = []
+    for st in body:
+        for f in ('body', 'orelse', 'finalbody'):
+            sub = getattr(st, f, None)
+            if isinstance(sub, list) and sub and isinstance(sub[0], ast.stmt) and not isinstance(st, (ast.FunctionDef, ast.AsyncFunctionDef, ast.ClassDef)):
+                setattr(st, f, _inline_block(sub, methods, depth))
+        for hd in getattr(st, 'handlers', []) or []:
+            hd.body = _inline_block(hd.body, methods, depth)
+        if isinstance(st, ast.With) and depth < 4:
+            r = _inline_with(st, methods, depth)
+            if r is not None:
+                out += r
+                continue
+        out.append(st)
+    return out
+
+
+def inline_cms(methods: T.Dict[str, T.Any]) -> T.Dict[str, T.Any]:
+    """The methods of a class with every `with self.<contextmanager generator>(...)` block read as prologue; body; epilogue
+    (copies; methods without such a block are returned as they are)."""
+    if not any(_cm_shape(f) is not None for f in methods.values()):
+        return methods
+    out: T.Dict[str, T.Any] = {}
+    for name, fn in methods.items():
+        if isinstance(fn, ast.FunctionDef) and any(isinstance(n, ast.With) and any(_self_call(i.context_expr) in methods for i in n.items) for n in walk_no_nested(fn)):
+            f2 = copy.deepcopy(fn)
+            f2.body = _inline_block(f2.body, methods)
+            out[name] = f2
+        else:
+            out[name] = fn
+    return out
+
+
+def _opaque_with(fn: ast.AST, inside: T.Optional[ast.AST] = None) -> T.Optional[ast.With]:
+    """A `with self.<something>(...)` block that was not read (it may write text around its body)."""
+    for n in walk_no_nested(fn):
+        if isinstance(n, ast.With) and any(_self_call(i.context_expr) is not None for i in n.items):
+            if inside is None or any(x is inside for b in n.body for x in ast.walk(b)):
+                return n
+    return None
+
+
 def _paren_text(call: ast.Call) -> T.Optional[str]:
     """'(' / ')' when the call appends exactly that text to the output."""
     if _self_call(call) in ('append', 'append_padded') and call.args and isinstance(call.args[0], ast.Constant) \
@@ -101,7 +230,7 @@ class Helper(T.NamedTuple):
 def paren_helpers(ctx: RuleCtx, mod: Module, cls: str) -> T.Dict[str, Helper]:
     """Methods of the printer (not visitors) that emit one of their parameters with `p.accept(self)`."""
     out: T.Dict[str, Helper] = {}
-    for name, fn in mod.methods(cls).items():
+    for name, fn in inline_cms(mod.methods(cls)).items():
         if name.startswith('visit_'):
             continue
         params = [a.arg for a in fn.args.args][1:]
@@ -109,6 +238,8 @@ def paren_helpers(ctx: RuleCtx, mod: Module, cls: str) -> T.Dict[str, Helper]:
                and isinstance(c.func.value, ast.Name) and c.func.value.id in params]
         if not acc:
             continue
+        if _opaque_with(fn) is not None:
+            raise Undecided(f'{cls}.{name}: emits its operand next to a context manager that is not read: {short(_opaque_with(fn).items[0].context_expr)}')
         inner = params.index(acc[0].func.value.id)  # type: ignore[attr-defined]
         sem: T.Dict[bool, bool] = {}
         flag: T.Optional[str] = None
@@ -141,6 +272,12 @@ def paren_helpers(ctx: RuleCtx, mod: Module, cls: str) -> T.Dict[str, Helper]:
     return out
 
 
+def _no_opaque(fn: ast.AST, call: ast.AST) -> None:
+    w = _opaque_with(fn, call)
+    if w is not None:
+        raise Undecided(f'{getattr(fn, "name", "?")}: an operand is emitted inside a context manager that is not read: {short(w.items[0].context_expr)}')
+
+
 class Emission(T.NamedTuple):
     attr: str
     guard: T.Optional[ast.AST]      # None: emitted bare
@@ -170,8 +307,10 @@ def emissions(fn: ast.FunctionDef, helpers: T.Dict[str, Helper], methods: T.Opti
         if isinstance(c.func, ast.Attribute) and c.func.attr == 'accept' and len(c.args) == 1 and norm(c.args[0]) == params[0]:
             a = operand(c.func.value)
             if a is not None:
+                _no_opaque(fn, c)
                 out.append(Emission(a, None, None, c, fn))
             continue
+        c0 = c
         h = _self_call(c)
         if h is None and isinstance(c.func, ast.Attribute) and c.func.attr in helpers and c.args and norm(c.args[0]) == params[0]:
             h = c.func.attr                         # Class.helper(self, ...)
@@ -190,6 +329,7 @@ def emissions(fn: ast.FunctionDef, helpers: T.Dict[str, Helper], methods: T.Opti
                     g = bound.get(hp.flag) if hp.flag is not None else None
                     if hp.flag is not None and g is None:
                         raise Undecided(f'{fn.name}: call of {h} without its flag argument')
+                    _no_opaque(fn, c0)
                     out.append(Emission(a, g, hp, c, fn))
             continue
         if h is not None and methods and h in methods and h not in helpers and depth < 2 and not h.startswith('visit_'):
@@ -306,6 +446,9 @@ def paren_mode(ctx: RuleCtx, mod: Module, cls: str, paren_cls: str, inner_attr: 
     if r is None:
         return False
     m2, c2, fn = r
+    fn = inline_cms(m2.methods(c2.name)).get(fn.name, fn)
+    if _opaque_with(fn) is not None:
+        raise Undecided(f'{c2.name}.visit_{paren_cls}: uses a context manager that is not read: {short(_opaque_with(fn).items[0].context_expr)}')
     params = [a.arg for a in fn.args.args]
     modes: T.Set[bool] = set()
     for p in enumerate_paths(fn.body):
